@@ -101,6 +101,8 @@ fn guard_plan(rng: &mut Rng) -> AllocPlan {
 }
 
 const EQUIV_FAMS: &[(Family, u32)] = &[
+    (Family::Explosive, 2),
+    (Family::Nested, 1),
     (Family::Idioms, 3),
     (Family::IoPressure, 2),
     (Family::Brackets, 1),
@@ -113,6 +115,8 @@ const EQUIV_FAMS: &[(Family, u32)] = &[
 ];
 
 const JIT_FAMS: &[(Family, u32)] = &[
+    (Family::Explosive, 2),
+    (Family::Nested, 1),
     (Family::Long, 1),
     (Family::Idioms, 3),
     (Family::IoPressure, 5),
@@ -134,6 +138,7 @@ const ROAM_FAMS: &[(Family, u32)] = &[
 ];
 
 const DIV_FAMS: &[(Family, u32)] = &[
+    (Family::Explosive, 1),
     (Family::Brackets, 5),
     (Family::Divergent, 8),
     (Family::Raw, 4),
@@ -142,6 +147,8 @@ const DIV_FAMS: &[(Family, u32)] = &[
 ];
 
 const BC_FAMS: &[(Family, u32)] = &[
+    (Family::Explosive, 2),
+    (Family::Nested, 1),
     (Family::Long, 1),
     (Family::Idioms, 3),
     (Family::IoPressure, 2),
